@@ -289,6 +289,13 @@ theorem planXP_ag {p : Nat} (hp : p ∈ A) (tk : Kind) : planXP g p tk = planXP 
 theorem shouldTry_ag (lang : Lang) {p : Nat} (hp : p ∈ A) (lem : Str) (i : Nat) :
     shouldTryAnotherSubject g lang p lem i = shouldTryAnotherSubject h lang p lem i := by
   unfold shouldTryAnotherSubject
+  have hany : ((g.kids p).drop (i + 1)).any (fun x => g.isA x [Kind.NP, Kind.N, Kind.CP, Kind.Pro]) =
+      ((h.kids p).drop (i + 1)).any (fun x => h.isA x [Kind.NP, Kind.N, Kind.CP, Kind.Pro]) := by
+    rw [kids_ag cl ag hp]
+    apply any_congr'
+    intro x hx
+    rw [isA_ag cl ag (mem_of_kid cl ag hp (List.mem_of_mem_drop hx))]
+  simp only [hany]
   cases lang with
   | en => rfl
   | fr =>
